@@ -84,6 +84,39 @@ fn c13q_wait_status_of_unknown_job() {
     std::mem::forget(jobs);
 }
 
+
+/// `wait` without operands: it goes on waiting while ANY job of the table is still running - wherever that job sits in
+/// the table (the table is sparse: job numbers of removed jobs leave gaps)
+#[kani::proof]
+#[kani::unwind(5)]
+fn c13q_wait_all_with_gap_below_running_job() {
+    let mut jobs = JobList::default();
+    let first = jobs.insert(Job::new(Pid(10)));
+    let second = jobs.insert(Job::new(Pid(11)));
+    jobs.remove(first);
+    let job_control: bool = kani::any();
+    let r = any_job_is_running(if job_control { On } else { Off })(&mut jobs);
+    assert!(r == ControlFlow::Continue(()), "a child is still running: wait keeps waiting, whatever gaps the table has");
+    assert!(jobs.get(second).is_some(), "the running child stays in the table");
+    std::mem::forget(jobs);
+}
+
+#[kani::proof]
+#[kani::unwind(5)]
+fn c13q_wait_all_finished_or_none() {
+    let mut jobs = JobList::default();
+    let job_control: bool = kani::any();
+    let r = any_job_is_running(if job_control { On } else { Off })(&mut jobs);
+    assert!(r == ControlFlow::Break(ExitStatus(0)), "no child at all: wait returns 0");
+    let mut job = Job::new(Pid(12));
+    job.state = ProcessState::Halted(ProcessResult::Exited(ExitStatus(kani::any())));
+    let index = jobs.insert(job);
+    let r = any_job_is_running(if job_control { On } else { Off })(&mut jobs);
+    assert!(r == ControlFlow::Break(ExitStatus(0)), "every child has finished: wait returns 0");
+    assert!(jobs.get(index).is_none(), "and the finished child has been reaped");
+    std::mem::forget(jobs);
+}
+
 /// negative control: must be refuted (a running child is not reported as finished)
 #[kani::proof]
 #[kani::unwind(4)]
